@@ -41,6 +41,8 @@ def regen():
     with Lock("coq"):
         rc, out = sh([sys.executable, os.path.join(ROOT, "tools", "gen_spec.py"), os.path.join(COQ, "theories/Gen/Gen.v")],
                      env={"HV_REPO": REPO})
+        rc2, out2 = sh([sys.executable, os.path.join(ROOT, "tools", "sigx.py")], env={"HV_REPO": REPO})
+    out = out + out2
     unt = re.findall(r"^UNTRANSLATED (\S+): (.*)$", out, re.M)
     return unt, out
 
@@ -255,7 +257,7 @@ def run_scripts(exe, driver, scripts_text, wdir, tag, levels="ABC"):
     crashed = []
     for sp, tp, p in procs:
         try:
-            _, err = p.communicate(timeout=900)
+            _, err = p.communicate(timeout=300)
             rc = p.returncode
         except subprocess.TimeoutExpired:
             p.kill(); rc, err = 124, b"timeout"
